@@ -663,6 +663,9 @@ fn gpu(faulty: bool) {
     if let Err(e) = zoo::with_transport(tk, GpuRun { faulty, edid_offered, edid, display }) {
         violation("transport-construction-failed", "zoo", e);
     }
+    if !faulty {
+        crate::world::check_nothing_shared("gpu", &[0, 1]);
+    }
 }
 pub fn gpu_run() {
     gpu(false)
@@ -980,6 +983,9 @@ fn sound(faulty: bool) {
     oplog(|| format!("VirtIOSound over {tk:?}, faulty {faulty}"));
     if let Err(e) = zoo::with_transport(tk, SoundRun { faulty }) {
         violation("transport-construction-failed", "zoo", e);
+    }
+    if !faulty {
+        crate::world::check_nothing_shared("sound", &[0, 2]);
     }
 }
 pub fn sound_run() {
